@@ -1609,7 +1609,7 @@ def validate_chunks(w, header, recs, limit=60000):
     return res, rejects, keys
 
 
-def corrupt_one_field(w, header, recs):
+def corrupt_one_field(w, header, recs, skip_sessions=()):
     """Self-test of the trace specification: five single-field corruptions of the recorded trace of one world
     (each in a different session) must be rejected at exactly that record, by the expected clause."""
     import copy
@@ -1626,8 +1626,9 @@ def corrupt_one_field(w, header, recs):
             continue
         role = REG[r["e"] - 1]["role"]
         key = (r["e"], r["s"], r["v"])
-        if sess in used or r["err"] or (r["d1"] and role not in ("ctor", "setter")):
-            continue            # the rest of a corrupted session is skipped by the specification
+        if sess in used or sess in skip_sessions or r["err"] or (r["d1"] and role not in ("ctor", "setter")):
+            continue            # the rest of a corrupted session is skipped by the specification; a session the
+                                # specification rejects uncorrupted (a library violation) cannot serve the self-test
         kind = None
         if "RepeatDiffers" in todo and role == "fn" and key in seen:
             kind, r["res"] = "RepeatDiffers", top
@@ -1742,9 +1743,19 @@ def run(tier, replay=None):
             vals = {w: ex.submit(validate_chunks, w, header_record(w), recs) for w, recs in traces.items()}
             vals = {w: f.result() for w, f in vals.items()}
         w0 = "w2" if "w2" in traces else sorted(traces)[0]
-        r0, clauses = corrupt_one_field(w0, header_record(w0), traces[w0])
-        chk.add_tlc(r0, f"TraceSession {w0} corrupt-one-field")
-        chk.extra["trace_corruptions_rejected"] = clauses
+        # sessions of w0 the specification rejects as recorded (library violations, reported below) are not corrupted
+        begins0 = [i for i, r in enumerate(traces[w0]) if r["op"] == "begin"]
+        rej_sessions = {sum(1 for b in begins0 if b <= ridx) for ridx, _ in vals[w0][1]}
+        try:
+            r0, clauses = corrupt_one_field(w0, header_record(w0), traces[w0], rej_sessions)
+            chk.add_tlc(r0, f"TraceSession {w0} corrupt-one-field")
+            chk.extra["trace_corruptions_rejected"] = clauses
+        except MachineryError as e:
+            if not vals[w0][1]:
+                raise
+            # the recorded trace itself is rejected (violations follow): the memo shared by the sessions of a world makes
+            # the corrupted copy differ in more than one place, so the self-test is not meaningful on this tree
+            chk.extra["trace_corruptions_rejected"] = f"not run: the recorded trace of {w0} is rejected ({e})"
         badcases = set()
         for w, (r, rejects, nkeys) in vals.items():
             chk.add_tlc(r, f"TraceSession {w}")
